@@ -191,9 +191,33 @@ def variants(rep, prog, rule):
             elif prim(a) == prim(b):
                 rep.ok(rule, key, d["two"].loc, "%s" % sorted(x.rsplit("::", 1)[-1] for x in prim(a)))
             else:
-                rep.unk(rule, key, d["two"].loc, "two-image reaches %s, in-place reaches %s" % (
-                    sorted(x.rsplit("::", 1)[-1] for x in prim(a)),
-                    sorted(x.rsplit("::", 1)[-1] for x in prim(b))))
+                pa = sorted(x.rsplit("::", 1)[-1] for x in prim(a))
+                pb = sorted(x.rsplit("::", 1)[-1] for x in prim(b))
+
+                def family(names):
+                    fam = set()
+                    for x in names:
+                        if x.startswith("div_and_clip"):
+                            fam.add("table")        # fixed-point reciprocal table (portable code)
+                        elif re.match(r"^divide_alpha_\d+_pixels?$", x) or x.startswith("mul_color_recip"):
+                            fam.add("float")        # float quotient / float reciprocal per lane
+                    return fam
+                fa, fb = family(pa), family(pb)
+                # 16-bit division: the float quotient of the SIMD primitives and the 33-bit
+                # fixed-point reciprocal of the portable code pick different neighbours of
+                # c*65535/a for about 0.04 % of (c, a) pairs (e.g. c = 23187, a = 33824:
+                # 44926 vs 44925) - both are allowed by the property, mixing them between the
+                # two variants of one operation is not.
+                if op == "divide" and ty in ("u16x2", "u16x4") and fa != fb:
+                    rep.bad(rule, key + "|families", d["one"].loc, "within the %s back-end the "
+                            "two-image %s routine divides with %s (%s) but the in-place routine "
+                            "with %s (%s): the float quotient and the fixed-point reciprocal pick "
+                            "different neighbours of c*65535/a for some (c, a), so the two variants "
+                            "give different colours on the pixels handled by the other primitive"
+                            % (be, op, sorted(fa), pa, sorted(fb), pb))
+                else:
+                    rep.unk(rule, key, d["two"].loc, "two-image reaches %s, in-place reaches %s"
+                            % (pa, pb))
     rep.floor(rule, "alpha routine pairs", n, 20)
 
 
